@@ -51,6 +51,8 @@ type world struct {
 	dials  []string
 	recv   []recvEvent
 	wg     sync.WaitGroup
+
+	failFirst int // scripted environment: the first failFirst socket requests of a request fail
 }
 
 func selfSigned() tls.Certificate {
@@ -116,6 +118,13 @@ func (w *world) snapshot() ([]string, []recvEvent) {
 
 // dialFunc is installed into the real Dialer: it sees the address AFTER the redirect.
 func (w *world) dialFunc(ctx context.Context, network, address string) (net.Conn, error) {
+	w.mu.Lock()
+	if len(w.dials) < w.failFirst {
+		w.dials = append(w.dials, address)
+		w.mu.Unlock()
+		return nil, fmt.Errorf("scripted dial failure for %s", address)
+	}
+	w.mu.Unlock()
 	var d net.Dialer
 	c, err := d.DialContext(ctx, "tcp", w.ln.Addr().String())
 	w.mu.Lock()
